@@ -7,13 +7,23 @@ use crate::pgc::{self, PgcatConfig, ServerDef};
 use crate::proto;
 use crate::wire::{self, BackendSpec, Env};
 use bytes::BytesMut;
+#[cfg(feature = "lib")]
 use pgcat::messages::{Bind, Parse};
 use proptest::prelude::*;
 use serde::{Deserialize, Serialize};
 use std::collections::HashMap;
 
 pub fn check(tier: Tier, seed: u64, replay: (Option<&str>, Option<&str>)) -> Vec<PartReport> {
-    crate::run_parts!(tier, seed, replay, [LibPart, WirePart])
+    #[cfg(feature = "lib")]
+    {
+        crate::run_parts!(tier, seed, replay, [LibPart, WirePart])
+    }
+    #[cfg(not(feature = "lib"))]
+    {
+        let mut v = vec![crate::engine::lib_unavailable("C08", "lib")];
+        v.extend(crate::run_parts!(tier, seed, replay, [WirePart]));
+        v
+    }
 }
 
 /// Statement pool: texts deliberately shared between clients, with pairs that are adjacent under
@@ -52,6 +62,7 @@ pub struct LibCase {
     pub params: Vec<Option<Vec<u8>>>,
 }
 
+#[cfg(feature = "lib")]
 pub struct LibPart;
 
 fn text_types() -> BoxedStrategy<(String, Vec<i32>)> {
@@ -64,6 +75,7 @@ fn text_types() -> BoxedStrategy<(String, Vec<i32>)> {
     .boxed()
 }
 
+#[cfg(feature = "lib")]
 impl Part for LibPart {
     type Case = LibCase;
     fn prop(&self) -> &'static str {
